@@ -507,7 +507,13 @@ def gen_lazy_case(rng: random.Random):
             attrs = ['eo'] if t == 'event-based' else ['po', 'eo']
             beh.append({'type': t, 'self_steps': ss, 'default_output': [None, attrs]})
     init = [[i, 0] for i in range(n) if types[i] == 'event-based' and rng.random() < 0.7]
-    return dict(n=n, types=types, grp=grp, edges=edges, until=until, beh=beh, init=init, maxloop=100)
+    case = dict(n=n, types=types, grp=grp, edges=edges, until=until, beh=beh, init=init, maxloop=100)
+    r2 = random.Random(n * 131 + until * 17 + len(edges))        # (own generator: the main stream is unchanged)
+    if r2.random() < 0.5:
+        # consumers with plain (non-generator) step/get_data methods: they never suspend, but still lag behind when another,
+        # slow predecessor holds them back - their producers must wait for them all the same
+        case['plain'] = [i for i in range(np_, n) if r2.random() < 0.7]
+    return case
 
 
 def gen_parallel_case(rng: random.Random, clean=True):
@@ -717,6 +723,37 @@ def gen_forecast_case(rng: random.Random):
         if types[j] == 'time-based': beh.append({'type': 'time-based', 'step_size': 1, 'default_output': [None, ['po']]})
         else: beh.append({'type': 'hybrid', 'self_steps': {str(t): t + 1 for t in range(until)}, 'outputs': {f'{t},0': [None, ['po']] for t in range(until + 1)}, 'default_output': [None, ['po']]})
     return dict(n=n, types=types, grp=grp, edges=edges, until=until, beh=beh, init=[], maxloop=100)
+
+
+def gen_substep_forecast_case(rng: random.Random):
+    """a future-dated output from INSIDE a same-time loop: A and L settle a weak loop in one group; at a sub-step k >= 1 A
+    announces an output for a later time t' > t, which triggers B (same group or a deeper one); B feeds the self-stepping D
+    over an undelayed connection.  B's step for t' is the first sub-step of t' - D's step at t' has to wait for it."""
+    until = rng.randint(4, 7)
+    deep = rng.random() < 0.3
+    grp = [[0], [0], [0, 0] if deep else [0], [0, 0] if deep else [0]]
+    types = ['hybrid', rng.choice(['event-based', 'hybrid']), rng.choice(['hybrid', 'hybrid', 'event-based']), rng.choice(['time-based', 'hybrid'])]
+    bout = 'po' if types[2] == 'hybrid' and rng.random() < 0.6 else 'eo'
+    din = 'i' if bout == 'po' or types[3] == 'time-based' else 'ti'
+    edges = [dict(a=0, b=1, sa='eo', da='ti', kind='p', shift=0, init=False),
+             dict(a=1, b=0, sa='eo', da='ti', kind='w', shift=0, init=False),
+             dict(a=0, b=2, sa='e2', da='ti', kind='p', shift=0, init=False),
+             dict(a=2, b=3, sa=bout, da=din, kind='p', shift=0, init=False)]
+    if rng.random() < 0.5: edges = [edges[2], edges[3], edges[0], edges[1]]
+    t0 = rng.choice([0, 0, 1]); ahead = rng.choice([1, 2, 2, 3]); rounds = rng.choice([1, 1, 2])
+    every = rng.choice([2, 3, until])
+    outsA, outsL = {}, {}
+    for t in range(t0, until, every):
+        for q in range(rounds + 1):
+            outsA[f'{t},{q}'] = [None, ['po', 'eo']] if q < rounds else [t + ahead, ['po', 'e2']]        # the last sub-step announces the future output
+            outsL[f'{t},{q}'] = [None, ['eo'] + (['po'] if types[1] == 'hybrid' else [])]
+    beh = [{'type': 'hybrid', 'self_steps': {str(t): t + every for t in range(t0, until, every)}, 'outputs': outsA, 'default_output': [None, ['po']]},
+           {'type': types[1], 'self_steps': {}, 'outputs': outsL, 'default_output': [None, ['po'] if types[1] == 'hybrid' else []]},
+           {'type': types[2], 'self_steps': {}, 'outputs': {}, 'default_output': [None, [bout] + (['po'] if types[2] == 'hybrid' and bout != 'po' else [])]}]
+    if types[3] == 'time-based': beh.append({'type': 'time-based', 'step_size': 1, 'default_output': [None, ['po']]})
+    else: beh.append({'type': 'hybrid', 'self_steps': {str(t): t + 1 for t in range(until)}, 'outputs': {}, 'default_output': [None, ['po']]})
+    init = [[0, t0]] if t0 else []
+    return dict(n=4, types=types, grp=grp, edges=edges, until=until, beh=beh, init=init, maxloop=100)
 
 
 def gen_late_event_case(rng: random.Random):
